@@ -741,6 +741,9 @@ func (lcp *LCPStateMachine) receiveEchoRequest(pkt *LCPPacket) error {
 	if lcp.state != LCPStateOpened {
 		return nil
 	}
+	if len(pkt.Data) < 4 {
+		return nil // no magic number field: silently discard
+	}
 
 	// Build Echo-Reply with our magic number
 	replyData := make([]byte, 4+len(pkt.Data)-4)
